@@ -344,7 +344,17 @@ def judge_termination(bins, cases):
     only a run that is still going then (or dies of memory exhaustion) is judged, anything that finishes is judged like any other run"""
     bad = []
     n = 0
-    for case in cases[:12]:
+    # one representative per template / argument vector, and the runs that are not the recorded Tera `range` loop first: the twelve slots must not
+    # all go to one known cause while another hang waits behind them
+    seen, uniq = set(), []
+    for case in cases:
+        a = case["argv"]
+        key = a[a.index("--output-template") + 1] if "--output-template" in a and a.index("--output-template") + 1 < len(a) else next((x for x in a if x.startswith("--output-template=")), None) or tuple(a)
+        if key not in seen:
+            seen.add(key)
+            uniq.append(case)
+    uniq.sort(key=lambda c: any("range(" in x for x in c["argv"]))
+    for case in uniq[:12]:
         stdin = case["stdin"].encode("latin-1") if case.get("stdin_is_bytes") else case["stdin"]
         r = core.run_zerv(bins, case["argv"], stdin=stdin, env=core.base_env(bins), timeout=150)
         n += 1
@@ -372,7 +382,7 @@ def sweep_templates():
     for ln in (0, 1, 3, 100):
         t.append("{{ prefix(value=bumped_branch, length=%d) }}" % ln)
     for args in ("", ", preset='semver'", ", preset='pep440'", ", preset='uint'", ", separator='-'", ", separator='_', lowercase=true, max_length=4",
-                 ", keep_zeros=true, max_length=1", ", max_length=0", ", separator='ab', max_length=3"):
+                 ", keep_zeros=true, max_length=1", ", max_length=0", ", separator='ab', max_length=3", ", separator=''", ", separator='', max_length=2"):
         t.append("{{ sanitize(value=bumped_branch%s) }}" % args)
     for f in ("%Y-%m-%d", "compact_date", "compact_datetime", "%Q", "%", "%%", "%5", "%Y%", "%-", "%:z %Z %s %f %+", "%c %x %X %D %F %T %R %r %v %e %k %l %P %p %u %w %U %W %G %g %V %C %h %n %t", ""):
         t.append("{{ format_timestamp(value=bumped_timestamp, format=\"%s\") }}" % f)
@@ -383,6 +393,7 @@ def sweep_templates():
 def work_sweep(bins, branches, timestamps, hash_only=False):
     env = core.base_env(bins)
     bad = []
+    timed_out = []
     n = 0
     tpls = sweep_templates()
     if hash_only:
@@ -397,7 +408,9 @@ def work_sweep(bins, branches, timestamps, hash_only=False):
             for sig, why in judge(r, argv):
                 if sig != "__timeout__":
                     bad.append((sig, why, case))
-    return dict(n=n, bad=bad)
+                elif len(timed_out) < 4:
+                    timed_out.append(case)
+    return dict(n=n, bad=bad, timed_out=timed_out)
 
 
 def work_deep(bins, argv, stdin):
@@ -609,6 +622,7 @@ def run(ctx):
     for r in core.pmap(work_sweep, jobs):
         ctx.evaluations += r["n"]
         ctx.count("template_function_sweep_runs", r["n"])
+        slow += r.get("timed_out", [])
         ctx.distinct_extra += r["n"]
         for sig, why, case in r["bad"]:
             ctx.refute(sig, why, case)
